@@ -369,8 +369,15 @@ def BoardSt.publish (b : BoardSt) (name content record : Bytes) : BoardSt × C05
 /-- `cache.SetBTotal`: re-read the record count from the board's own index. -/
 def BoardSt.setTotal (b : BoardSt) : BoardSt := { b with total := b.dir.bytes.length / dirSz }
 
-/-- the ALLPOST side of `doCrosspost`: copy the file, append the record, `TouchBPostNum(+1)`. -/
+/-- the ALLPOST side of `doCrosspost` (after 4ca0e38): copy the file, append the record, `SetBTotal` — the cached
+total is recounted from the board's own index, as for the posted board. -/
 def BoardSt.crossPublish (b : BoardSt) (name content record : Bytes) : BoardSt :=
+  let r := C05.appendRecord b.dir dirSz record
+  { b with dir := r.1, files := (name, content) :: b.files, total := r.1.bytes.length / dirSz }
+
+/-- before 4ca0e38: `TouchBPostNum(bid, 1)` — one more than whatever was cached, also when that was the cold 0
+of a total that had not been counted yet. -/
+def BoardSt.crossPublishOld (b : BoardSt) (name content record : Bytes) : BoardSt :=
   let r := C05.appendRecord b.dir dirSz record
   { b with dir := r.1, files := (name, content) :: b.files, total := b.total + 1 }
 
